@@ -69,9 +69,6 @@ func (a *Arena) Alloc(name string, n, c int, place string, align int) []byte {
 	pages := (need + page - 1) / page
 	r := a.getRegion(pages)
 	data := r.base[page : page+pages*page]
-	for i := range data {
-		data[i] = canary(i)
-	}
 	var off int
 	switch place {
 	case "tail":
@@ -80,6 +77,19 @@ func (a *Arena) Alloc(name string, n, c int, place string, align int) []byte {
 		off = 0
 	default:
 		off = 64 + (align & 63)
+	}
+	if c >= 1<<28 {
+		// very large allocations: only the surroundings carry the canary pattern
+		for i := 0; i < off; i++ {
+			data[i] = canary(i)
+		}
+		for i := off + c; i < len(data); i++ {
+			data[i] = canary(i)
+		}
+	} else {
+		for i := range data {
+			data[i] = canary(i)
+		}
 	}
 	al := &Alloc{Name: name, reg: r, off: off, length: c}
 	a.live = append(a.live, al)
@@ -95,10 +105,12 @@ func (a *Arena) Alloc(name string, n, c int, place string, align int) []byte {
 func (a *Arena) Check() (ok bool, name string, rel int) {
 	for _, al := range a.live {
 		data := al.reg.base[page : page+al.reg.pages*page]
-		for i := range data {
-			if i >= al.off && i < al.off+al.length {
-				continue
+		for i := 0; i < al.off; i++ {
+			if data[i] != canary(i) {
+				return false, al.Name, i - al.off
 			}
+		}
+		for i := al.off + al.length; i < len(data); i++ {
 			if data[i] != canary(i) {
 				return false, al.Name, i - al.off
 			}
@@ -135,4 +147,20 @@ func (a *Arena) Reset() {
 		a.free[al.reg.pages] = append(a.free[al.reg.pages], al.reg)
 	}
 	a.live = a.live[:0]
+}
+
+// Release unmaps every region of the arena (live and pooled). The arena is empty afterwards.
+func (a *Arena) Release() {
+	for _, al := range a.live {
+		a.free[al.reg.pages] = append(a.free[al.reg.pages], al.reg)
+	}
+	a.live = a.live[:0]
+	for k, l := range a.free {
+		for _, r := range l {
+			a.Mapped -= len(r.base)
+			syscall.Munmap(r.base)
+			r.base = nil
+		}
+		delete(a.free, k)
+	}
 }
